@@ -36,6 +36,11 @@ def step (line : String) : String :=
     | some n, some c, some p, some sf, some f, some r, some m, some z =>
       s!"{hex (accountInfoEnc n c p sf (ofBig f) (ofBig r) (ofBig m) (ofBig z))} rt=true"
     | _, _, _, _, _, _, _, _ => "bad-op"
+  -- lib/genesis generateStorageValue on a *scale.Uint128 field: raw storage bytes and JSON form of one number
+  | ["gsv", d] => match parseDec? d.toList with
+    | some n => if n ≥ 2^128 then "bad-op" else
+      s!"{hex (scaleEnc (ofBig n))} json={String.ofList (toDec (ofBig n))}"
+    | none => "bad-op"
   -- lib/genesis buildBalances: one System.Account entry per (address, balance)
   | ["gbal", a, d] => match ofHex? a, parseDec? d.toList with
     | some addr, some n =>
